@@ -330,4 +330,65 @@ theorem step_lookup_frame {s : State} (hI : Inv s) {op : Op} {s' : State} {evs :
   unfold State.owner
   rw [step_queue_frame hI h n hn]
 
+/-- Who is connected after an operation. -/
+def connectedAfter (s : State) (op : Op) (d : Conn) : Bool :=
+  match op with
+  | .connect => if d = s.nextId then true else s.connected d
+  | .disconnect c => if d = c then false else s.connected d
+  | _ => s.connected d
+
+/-- Which unique name comes next after an operation. -/
+def nextIdAfter (s : State) (op : Op) : Nat :=
+  match op with
+  | .connect => s.nextId + 1
+  | _ => s.nextId
+
+theorem step_connected {s : State} (hI : Inv s) {op : Op} {s' : State} {evs : List Event}
+    (h : step s op = .ok (s', evs)) :
+    (∀ d, s'.connected d = connectedAfter s op d) ∧ s'.nextId = nextIdAfter s op := by
+  cases op with
+  | connect =>
+    obtain ⟨s1, ev1, h1, p⟩ := connect_post hI
+    have : step s .connect = connect s := rfl
+    rw [this, h1] at h
+    cases h
+    exact ⟨p.conn_eq, p.next_eq⟩
+  | disconnect c =>
+    have hs : step s (.disconnect c) = disconnect s c := rfl
+    rw [hs] at h
+    have hc := disconnect_connected h
+    obtain ⟨s1, ev1, h1, p⟩ := disconnect_post hI hc
+    rw [h1] at h
+    cases h
+    exact ⟨p.conn_eq, p.next_eq⟩
+  | request c m w =>
+    have hs : step s (.request c m w) = requestName s c m w := rfl
+    rw [hs] at h
+    have hc := requestName_connected h
+    obtain ⟨s1, ev1, h1, p⟩ := requestName_post hI hc m w
+    rw [h1] at h
+    cases h
+    exact ⟨p.conn_eq, p.next_eq⟩
+  | release c m =>
+    have hs : step s (.release c m) = releaseName s c m := rfl
+    rw [hs] at h
+    have hc := releaseName_connected h
+    obtain ⟨s1, ev1, code, h1, p⟩ := releaseName_post hI hc m
+    rw [h1] at h
+    cases h
+    refine ⟨fun d => ?_, p.next_eq⟩
+    simp only [State.connected, p.clients_eq, connectedAfter]
+  | getOwner c m =>
+    have hs : step s (.getOwner c m) = getNameOwner s c m := rfl
+    rw [hs, getNameOwner_post hI] at h
+    cases h; exact ⟨fun _ => rfl, rfl⟩
+  | listQueued c m =>
+    have hs : step s (.listQueued c m) = listQueuedOwners s c m := rfl
+    rw [hs, listQueuedOwners_post] at h
+    cases h; exact ⟨fun _ => rfl, rfl⟩
+  | other c =>
+    have hs : step s (.other c) = .ok (s, []) := rfl
+    rw [hs] at h
+    cases h; exact ⟨fun _ => rfl, rfl⟩
+
 end Txdbus.Bus
